@@ -165,6 +165,12 @@ pub fn gen_tree(rng: &mut Rng, depth: usize, budget: &mut isize, dup_keys: bool)
 }
 
 /// Documents whose sizes cross the header-width and inline-length limits.
+/// the number of children of the container `gen_big(_, which)` builds (0 for the string shapes)
+pub fn gen_big_children(which: usize) -> usize {
+    let sizes = [255usize, 256, (1 << 14) - 3, (1 << 14) - 2, (1 << 14) - 1, 1 << 14, (1 << 14) + 1, (1 << 14) + 2, 65535, 65536, 70000];
+    if (which / sizes.len()) % 3 == 0 { 0 } else { sizes[which % sizes.len()].min((1 << 14) + 2) }
+}
+
 pub fn gen_big(rng: &mut Rng, which: usize) -> Wire {
     let sizes = [255usize, 256, (1 << 14) - 3, (1 << 14) - 2, (1 << 14) - 1, 1 << 14, (1 << 14) + 1, (1 << 14) + 2, 65535, 65536, 70000];
     let n = sizes[which % sizes.len()];
